@@ -20,7 +20,9 @@ SessionEffect(p, hasHandler) ==
   ELSE CASE p.flag \in {"data", "parity"} ->
               IF p.len = "fec-header-cut" THEN "in-errs"
               ELSE IF p.flag = "data" THEN "to-kcp-and-fec" ELSE "to-fec"
-         [] p.flag = "oob" -> IF hasHandler THEN "oob-callback" ELSE "oob-counted"
+         \* an out-of-band message of another conversation between the same two addresses is not delivered
+         \* (fix 'out-of-band message of another conversation reaches the handler of a dialled session')
+         [] p.flag = "oob" -> IF hasHandler /\ p.conv = "match" THEN "oob-callback" ELSE "oob-counted"
          [] OTHER -> "to-kcp"
 
 (* Listener.packetInput: exists = a session is registered for the source address, full = accept backlog full *)
@@ -50,6 +52,8 @@ IntegrityGuards ==                                                              
         /\ SessionEffect(p, h) \in {"drop-silent", "csum-error"}
 OOBNeverEntersFecOrKcp ==                                                                                   \* C19
   \A p \in PktClasses, h \in BOOLEAN : p.flag = "oob" => SessionEffect(p, h) \notin {"to-kcp", "to-kcp-and-fec", "to-fec"}
+OOBOnlyOwnConversation ==                                                                                   \* C19
+  \A p \in PktClasses, h \in BOOLEAN : SessionEffect(p, h) = "oob-callback" => p.flag = "oob" /\ p.conv = "match" /\ h
 SessionOnlyForNewConversation ==                                                                            \* C11
   \A p \in PktClasses, e \in BOOLEAN, f \in BOOLEAN :
      ListenerEffect(p, e, f) \in {"new-session", "reset-and-new-session"} =>
